@@ -292,6 +292,6 @@ func ruleC14(c *Ctx) {
 	checkMapOrder(c, "MAPORDER", fs)
 
 	// WRAPPERS
-	checkReturnIs(c, "WRAPPERS", "Read", w.fn("io/gff", "Read"), 0, "call[poly/io/gff.Parse](extract[0](call[io/ioutil.ReadFile](param[0])))", "Read(path) = Parse(ReadFile(path))")
+	checkReturnIs(c, "WRAPPERS", "Read", w.fn("io/gff", "Read"), 0, "call[poly/io/gff.Parse](extract[0](call[os.ReadFile](param[0])))", "Read(path) = Parse(ReadFile(path))")
 	checkFileWrite(c, "WRAPPERS", "Write", w.fn("io/gff", "Write"), 1, "call[poly/io/gff.Build](param[0])")
 }
